@@ -39,6 +39,23 @@ def expr_sx(e):
     raise ValueError(e)
 
 
+def pyval_sx(v):
+    """an arbitrary Python value handed over as a flow rate (the model's pyval)"""
+    (k, x), = v.items()
+    if k == "num":
+        Fraction(x)
+        return ["num", x]
+    if k == "graph":
+        return ["graph", expr_sx(x)]
+    if k == "str":
+        return ["str", x]
+    if k == "none":
+        return ["none"]
+    if k == "list":
+        return ["list"] + [str(Fraction(q)) for q in x]
+    raise ValueError(v)
+
+
 def strata_sx(d):
     return [[k, v] for k, v in (d or {}).items()]
 
@@ -73,6 +90,12 @@ def op_sx(o):
         return ["pop"] + [[n, expr_sx(e)] for n, e in o["dist"].items()]
     if k == "arraypop":
         return ["arraypop"] + [expr_sx(e) for e in o["arr"]]
+    if k == "flow" and o.get("pyrate") is not None:
+        return ["flowdyn", pyval_sx(o["pyrate"]), o["kind"], o["name"], "0", o.get("src") or "-", o.get("dst") or "-",
+                strata_sx(o.get("sf")), strata_sx(o.get("df")),
+                "none" if o.get("expected") is None else int(o["expected"]), bool(o.get("split", False))]
+    if k == "udeath" and o.get("pyrate") is not None:
+        return ["udeathdyn", o["name"], pyval_sx(o["pyrate"])]
     if k == "flow":
         return ["flow", o["kind"], o["name"], expr_sx(o.get("param", "1")), o.get("src") or "-", o.get("dst") or "-",
                 strata_sx(o.get("sf")), strata_sx(o.get("df")),
